@@ -59,8 +59,11 @@ def oracle(ctx, kernel, meta):
         got = set(po.ports) if po.operator else None
         if got != want:
             return {"what": f"{f}: port set differs from the Cisco meaning of {a[f]}"}
-    if set(o.option.flags) != set(a["flags"]) or list(o.option.logs) != list(a["logs"]):
+    opt_toks = [t for op in a.get("opts", []) for t in op]
+    if set(o.option.flags) != set(a["flags"]) | set(opt_toks) or list(o.option.logs) != list(a["logs"]):
         return {"what": f"flag/log tokens differ: {o.option.flags} {o.option.logs}"}
+    if opt_toks and [t for t in o.option.line.split() if t in opt_toks] != opt_toks:
+        return {"what": f"keyword/value options were re-ordered: {o.option.line!r}, text had {' '.join(opt_toks)!r}"}
     # 2. the rendered line, read independently, matches the same packets with the same action
     try:
         r = cr.read_ace(o.line, plat)
